@@ -62,9 +62,9 @@ def showOut (obs : List Obs) (s : St) : String :=
 
 def dedup (l : List String) : List String := l.eraseDups
 
-/-- `eng=sample long=<n> trials=<t>|` (see harness): with at most 10 lease entries the sample is exact
-(`ttl_removed_after_cleanup`); above, some iteration order hides the due key (`sampled_cleanup_can_miss`)
-and the harness tries `t` fresh instances. -/
+/-- `eng=sample long=<n> trials=<t>|` (see harness): since fix F47 `may_have_expired_keys` scans every
+entry, so the due key is removed whatever the iteration order (`ttl_removed_after_cleanup`); the harness
+tries `t` fresh instances (the old code missed with > 10 entries). -/
 def sampleCase (line : String) : Option Nat :=
   match line.splitOn "|" with
   | [hd, _] =>
@@ -74,7 +74,7 @@ def sampleCase (line : String) : Option Nat :=
 
 def modelLine (line : String) : String :=
   match sampleCase line with
-  | some n => if n + 1 ≤ 10 then "nomiss\tsample-exact" else "miss\tsample-gt10-real"
+  | some n => if n + 1 ≤ 10 then "nomiss\tsample-le10" else "nomiss\tsample-gt10"
   | none =>
   match parseCase line with
   | none => "bad-case\t-"
@@ -82,10 +82,7 @@ def modelLine (line : String) : String :=
     let s0 := init c.eng c.t0
     let (s, obs) := run s0 c.ops
     let tags := dedup (runTags s0 c.ops)
-    -- above 10 lease entries the real sampling order is unknown: mark the output so that it can never
-    -- be mistaken for a prediction
-    let mark := if tags.contains "sample-gt10" then "nondet:" else ""
-    (if obs.contains .panic then "panic" else mark ++ showOut obs s) ++ "\t" ++ (if tags.isEmpty then "-" else ",".intercalate tags)
+    (if obs.contains .panic then "panic" else showOut obs s) ++ "\t" ++ (if tags.isEmpty then "-" else ",".intercalate tags)
 
 def parseObs (s : String) : Option Obs :=
   if s == "." then some .none
